@@ -32,9 +32,9 @@ RIGHT_KINDS = ["polygon", "multipolygon", "line", "multiline", "point", "multipo
 
 def shards(tier, seed):
     n = 80 if tier == "quick" else 900
-    subs = [("float64", "float64")] + ([("int32", "float64"), ("float64", "int32")] if tier == "thorough"
-                                        else [[("int32", "float64")], [("float64", "int16")],
-                                              [("float32", "float32")]][seed % 3])
+    subs = [("float64", "float64"), ("int64", "float64")] + (
+        [("int32", "float64"), ("float64", "int32"), ("float32", "float32"), ("int16", "float32")]
+        if tier == "thorough" else [[("int32", "float64")], [("float64", "int16")], [("float32", "float32")]][seed % 3])
     out = []
     for kinds in (["polygon", "multipolygon"], ["line", "multiline", "point", "multipoint"]):
         for b in ("J", "B"):
@@ -64,6 +64,17 @@ def gen_case(rng, rkind, pt_sub, sh_sub):
             shapes.append(gg.transform(e, rkind, 1, 50, 50))            # matches nothing
         else:
             shapes.append(gg.rand_element(rng, rkind, G))
+    if nr and rkind in ("polygon", "multipolygon") and rng.random() < 0.3:
+        # a shape whose bounding box covers every left point but which holds only some of them
+        if rng.random() < 0.5:
+            big = [gg.flat([(-6, -6), (50, -6), (-6, 50), (-6, -6)])]                     # big triangle
+        else:
+            big = [gg.flat([(-6, -6), (40, -6), (40, 40), (-6, 40), (-6, -6)]),
+                   gg.flat([(2, 2), (2, 9), (9, 9), (9, 2), (2, 2)])]                     # square, big hole
+        shapes[int(rng.integers(nr))] = big if rkind == "polygon" else [big]
+    if nr and sh_sub.startswith("float") and rng.random() < 0.4:
+        # fractional shape coordinates (exact halves): a lossy cast to an integer point type shows
+        shapes = [None if s_ is None else gg.transform(s_, rkind, 1, 0.5, 0.5) for s_ in shapes]
     if nr and rng.random() < 0.15:
         shapes[int(rng.integers(nr))] = None                               # missing shape
     # points: half grid (+quarter offsets for polygon kinds on float subtypes), duplicates, missing
@@ -158,6 +169,17 @@ def _h(v):
     return v if isinstance(v, (str, float, tuple)) else str(v)
 
 
+def _exact4(kind, el):
+    """element scaled by 4 in exact arithmetic (quarter-grid coordinates become integers)"""
+    f = lambda fl: [og.to_exact(v * 4) for v in fl]          # noqa: E731
+    n = gg.nesting(kind)
+    if n == 0:
+        return f(el)
+    if n == 1:
+        return [f(p_) for p_ in el]
+    return [[f(r_) for r_ in p_] for p_ in el]
+
+
 def check_case(ctx, case):
     from spatialpandas import sjoin
     rkind, how = case["rkind"], case["how"]
@@ -187,7 +209,7 @@ def check_case(ctx, case):
     for j, sh in enumerate(shapes):
         if sh is None or not gg.coords_of(rkind, sh):
             continue
-        sh2 = gg.transform(sh, rkind, 4, 0, 0)
+        sh2 = _exact4(rkind, sh)
         for i, p in enumerate(pts):
             if p is None:
                 continue
